@@ -5,10 +5,11 @@
 //verif:cover VerifC07Bundles leftover-skipped three-bundles page-size-1
 //verif:cover VerifC07Repos prefix-named-repos
 //verif:cover VerifC07Labels three-labels
-//verif:cover VerifC07Diamonds done-diamond split-file-lists-present done-split page-size-1
+//verif:cover VerifC07Diamonds done-diamond split-file-lists-present done-split page-size-1 start-times-against-id-order
 package core
 
 import (
+	"time"
 	"github.com/oneconcern/datamon/pkg/model"
 )
 
@@ -178,10 +179,22 @@ func VerifC07Diamonds() {
 			meta.putRaw(model.GetArchivePathToFinalDiamond(repo, id), vYaml(model.DiamondDescriptor{DiamondID: id, State: model.DiamondDone}))
 		}
 	}
+	// start times of the splits: none recorded, or in / against the order of the split ids
+	timing := vChoose("splitStartTimes", 3)
+	startOf := func(sid string) time.Time {
+		t0 := time.Date(2021, 1, 1, 0, 0, 0, 0, time.UTC)
+		switch {
+		case timing == 0:
+			return time.Time{}
+		case (timing == 1) == (sid == "s1"):
+			return t0
+		}
+		return t0.Add(time.Hour)
+	}
 	putSplit := func(repo, did, sid string, state int) {
-		meta.putRaw(model.GetArchivePathToInitialSplit(repo, did, sid), vYaml(model.SplitDescriptor{SplitID: sid, State: model.SplitRunning, GenerationID: vG1}))
+		meta.putRaw(model.GetArchivePathToInitialSplit(repo, did, sid), vYaml(model.SplitDescriptor{SplitID: sid, State: model.SplitRunning, GenerationID: vG1, StartTime: startOf(sid)}))
 		if state == 2 {
-			meta.putRaw(model.GetArchivePathToFinalSplit(repo, did, sid), vYaml(model.SplitDescriptor{SplitID: sid, State: model.SplitDone, GenerationID: vG1}))
+			meta.putRaw(model.GetArchivePathToFinalSplit(repo, did, sid), vYaml(model.SplitDescriptor{SplitID: sid, State: model.SplitDone, GenerationID: vG1, StartTime: startOf(sid)}))
 		}
 		for i := 0; i < 2; i++ {
 			meta.putRaw(model.GetArchivePathToSplitFileList(repo, did, sid, vG1, uint64(i)), vYaml(model.BundleEntries{}))
@@ -252,6 +265,15 @@ func VerifC07Diamonds() {
 			for j := 0; j < i; j++ {
 				vAssert(gs[j].SplitID != s.SplitID, "split-listed-once")
 			}
+		}
+		// one page holding every key: the documented order is by start time, then by id
+		if len(gs) == 2 && c >= nKeys {
+			first := "s1"
+			if timing == 2 {
+				first = "split-2"
+				vCover("start-times-against-id-order")
+			}
+			vAssert(gs[0].SplitID == first, "splits-of-a-page-ordered-by-start-time")
 		}
 	}
 }
